@@ -122,6 +122,10 @@ def run_tlc(spec, cfg, *, workdir, workers=16, env=None, simulate=None, depth=No
     e.pop('JAVA_TOOL_OPTIONS', None)
     if env:
         e.update({k: str(v) for k, v in env.items()})
+    if not simulate:
+        # the per-run timeouts were measured on an idle 16-core machine; under load (other checks running in
+        # parallel) TLC is several times slower, and a time-out is a machinery error, never a verdict
+        timeout = timeout * float(os.environ.get('VERIF_TLC_TIMEOUT_FACTOR', '4'))
     t0 = time.time()
     outfile = workdir / 'tlc_stdout.txt'
     rc = 0
